@@ -49,7 +49,7 @@ func (f *Add) Call(s *slip.Scope, args slip.List, depth int) (sum slip.Object) {
 }
 
 func addNumbers(n0, n1 slip.Object) slip.Object {
-	n0, n1 = slip.NormalizeNumber(n0, n1)
+	n0, n1 = slip.NormalizeNumber(canonicalNumber(n0), canonicalNumber(n1))
 	switch t0 := n0.(type) {
 	case slip.Fixnum:
 		n1 = addFixnums(n1.(slip.Fixnum), t0)
